@@ -57,6 +57,83 @@ UNITS = [
          functions=["ompl::geometric::PathGeometric::check"], backend="minisat", confirm=dict(unwind=6, defines={}),
          canaries=[dict(name="last_motion_unchecked", where="body:check", rx=r"j < last;", repl="j < last - 1;")]),
 ]
+# ---------------------------------------------------------------- showcase: the whole body of geometric::RRT::solve
+RRT = "src/ompl/geometric/planners/rrt/src/RRT.cpp"
+RRT_RULES = [
+    (r"checkValidity\(\);", ";", 0), (r"base::Goal \*goal = pdef_->getGoal\(\)\.get\(\);", ";", 0), (r"auto \*goal_s = dynamic_cast<base::GoalSampleableRegion \*>\(goal\);", "SRef st;", 0),
+    (r"while \(const base::State \*st = pis_\.nextStart\(\)\)", "while ((st = pis_nextStart()) != 0)", 0),
+    (r"auto \*(\w+) = new Motion\(si_\);", r"MRef \1 = NEW_MOTION_S();", 0), (r"auto \*(\w+) = new Motion;", r"MRef \1 = NEW_MOTION();", 0),
+    (r"si_->copyState\(", "copyState(", 0), (r"nn_->add\(", "NN_ADD(", 0), (r"nn_->size\(\)", "NN_SIZE()", 0), (r"nn_->nearest\(", "NN_NEAREST(", 0),
+    (r"return base::PlannerStatus::INVALID_START;", "return ST_INVALID_START;", 0),
+    (r"if \(!sampler_\)\s*sampler_ = si_->allocStateSampler\(\);", "if (!have_sampler) have_sampler = 1;", 0),
+    (r"Motion \*(\w+) = ", r"MRef \1 = ", 0), (r"base::State \*(\w+) = ", r"SRef \1 = ", 0),
+    (r"std::numeric_limits<double>::infinity\(\)", "INFD", 0), (r"si_->allocState\(\)", "allocState()", 0), (r"si_->freeState\(", "freeState(", 0),
+    (r"while \(!ptc\)", "while (!ptc())", 0),
+    (r"\(goal_s != nullptr\) && rng_\.uniform01\(\) < goalBias_ && goal_s->canSample\(\)", "have_goal_s && uniform01_lt_goalBias() && canSampleGoal()", 0),
+    (r"goal_s->sampleGoal\(rstate\);", "SAMPLE_INTO(rstate);", 0), (r"sampler_->sampleUniform\(rstate\);", "SAMPLE_INTO(rstate);", 0),
+    (r"si_->distance\(", "distanceS(", 0),
+    (r"si_->getStateSpace\(\)->interpolate\(nmotion->state, rstate, maxDistance_ / d, xstate\);", "{ double t_ = FDIVT(maxDistance_, d); SAMPLE_INTO(xstate); }", 0),
+    (r"si_->checkMotion\(", "checkMotionS(", 0),
+    (r"std::vector<base::State \*> states;", "MS_size = 0;", 0), (r"si_->getStateSpace\(\)->validSegmentCount\(", "validSegmentCountS(", 0),
+    (r"si_->getMotionStates\(nmotion->state, dstate, states, count, true, true\)", "getMotionStatesS(nmotion->state, dstate, count)", 0),
+    (r"states\.size\(\)", "MS_size", 0), (r"\bstates\[", "MS_states[", 0), (r"std::size_t", "size_t", 0),
+    (r"goal->isSatisfied\(nmotion->state, ", "goal_isSatisfiedM(nmotion, ", 0),
+    (r"std::vector<Motion \*> mpath;", "mpath_size = 0;", 0), (r"mpath\.push_back\(solution\);", "MPATH_PUSH(solution);", 0), (r"solution = solution->parent;", "solution = PARENT_OF(solution);", 0),
+    (r"auto path\(std::make_shared<PathGeometric>\(si_\)\);", "path_len = 0;", 0), (r"mpath\.size\(\)", "mpath_size", 0),
+    (r"path->append\(mpath\[i\]->state\);", "PATH_APPEND_M(MPATH[i], (size_t)i);", 0),
+    (r"pdef_->addSolutionPath\(path, approximate, approxdif, getName\(\)\);", "addSolutionPathS(approximate, approxdif);", 0),
+    (r"delete rmotion;", "DELETE_MOTION(rmotion);", 0),
+    (r"return \{solved, approximate\};", "return solved ? (approximate ? ST_APPROX : ST_EXACT) : ST_TIMEOUT;", 0),
+    (r"(\w+)->state\b", r"M_state[\1]", 0), (r"(\w+)->parent\b", r"M_parent[\1]", 0),
+    (r"\bnullptr\b", "0", 0),
+]
+ARR = "__CPROVER_object_whole(M_parent), __CPROVER_object_whole(M_state), __CPROVER_object_whole(in_tree), __CPROVER_object_whole(M_alive), __CPROVER_object_whole(S_cid), __CPROVER_object_whole(S_start), __CPROVER_object_whole(S_seg), __CPROVER_object_whole(M_gdist), __CPROVER_object_whole(M_gsat), __CPROVER_object_whole(M_geval), __CPROVER_object_whole(S_alive), __CPROVER_object_whole(S_owned_by_tree)"
+QUIET = "n_paths_added == 0 && path_len == 0 && mpath_size == 0"
+SCRATCH = "rmotion >= 1 && rmotion < MAXM && M_alive[rmotion] && !in_tree[rmotion] && M_state[rmotion] == rstate && rstate >= 1 && rstate < MAXS && S_alive[rstate] && !S_owned_by_tree[rstate] && xstate >= 1 && xstate < MAXS && S_alive[xstate] && !S_owned_by_tree[xstate] && xstate != rstate && rmotion < next_m && rstate < next_s && xstate < next_s"
+APPROX = "(approxsol == 0 ? approxdif == INFD : (approxsol < MAXM && in_tree[approxsol] && M_state[approxsol] >= 1 && M_state[approxsol] < MAXS && M_geval[approxsol] && !M_gsat[approxsol] && approxdif == M_gdist[approxsol] && approxdif == approxdif && approxsol >= 1 && approxsol < next_m))"
+UNITS.append(dict(name="c01_rrt_solve_whole_body", template="C01/rrt_solve.c", entry="h_solve", enforce=["rrt_solve"], flags=FLAGS, level="proof", bound="executions that create fewer than 16 motions (field-map size); unbounded in the number of loop iterations",
+    replace=["ptc", "pis_nextStart", "NEW_MOTION_S", "NEW_MOTION", "DELETE_MOTION", "allocState", "freeState", "copyState", "SAMPLE_INTO", "uniform01_lt_goalBias", "canSampleGoal", "NN_ADD", "NN_NEAREST", "NN_SIZE", "distanceS", "FDIVT",
+             "checkMotionS", "validSegmentCountS", "getMotionStatesS", "goal_isSatisfiedM", "MPATH_PUSH", "PARENT_OF", "PATH_APPEND_M", "addSolutionPathS"],
+    functions=["ompl::geometric::RRT::solve"], backend="cadical", timeout=1800, expect_loops=5, confirm=dict(unwind=3, defines={"MAXM": 4}),
+    sources=[dict(name="solve", file=RRT, sig=r"ompl::base::PlannerStatus ompl::geometric::RRT::solve\(const base::PlannerTerminationCondition &ptc\)", rules=RRT_RULES, loops={
+        1: """
+__CPROVER_assigns(st, live_unowned, next_m, next_s, next_cid, tree_size, %(ARR)s)
+__CPROVER_loop_invariant(next_m >= 1 && next_s >= 1 && next_m < MAXM && next_s < MAXS - 8 && tree_size == next_m - 1 && live_unowned == 0 && !ptc_fired && ptc_after_fired == 0 && CM_token == 0 && !CM_ok && next_cid >= 1 && next_cid < (1L << 62) && %(QUIET)s)
+""" % dict(ARR=ARR, QUIET=QUIET),
+        2: """
+__CPROVER_assigns(solution, approxsol, approxdif, live_unowned, ptc_fired, ptc_after_fired, next_m, next_s, next_cid, tree_size, CM_ok, CM_from, CM_to, CM_token, MS_size, __CPROVER_object_whole(MS_states), %(ARR)s)
+__CPROVER_loop_invariant(live_unowned == 2 && !ptc_fired && ptc_after_fired == 0 && solution == 0 && tree_size > 0 && tree_size < next_m && next_m < MAXM && next_s < MAXS - 8 && CM_token >= 0 && CM_token < (1L << 62) && next_cid >= 1 && next_cid < (1L << 62) && %(QUIET)s && %(SCRATCH)s)
+__CPROVER_loop_invariant(%(APPROX)s)
+""" % dict(ARR=ARR, QUIET=QUIET, SCRATCH=SCRATCH, APPROX=APPROX),
+        3: """
+__CPROVER_assigns(i, nmotion, live_unowned, next_m, tree_size, %(ARR)s)
+__CPROVER_loop_invariant(!ptc_fired && ptc_after_fired == 0 && live_unowned == 2 + (MS_size > i ? (int)(MS_size - i) : 0) && i >= 1 && i <= 3 && MS_size <= 3 && (i <= MS_size || MS_size <= 1) && CM_ok && CM_token > 0 && CM_token < (1L << 62) && tree_size > 0 && tree_size < next_m && next_m < MAXM && next_s < MAXS - 8 && %(QUIET)s && %(SCRATCH)s)
+__CPROVER_loop_invariant(nmotion >= 1 && nmotion < MAXM && in_tree[nmotion] && M_alive[nmotion] && M_state[nmotion] >= 1 && M_state[nmotion] < MAXS && S_alive[M_state[nmotion]] && nmotion < next_m && M_state[nmotion] < next_s)
+__CPROVER_loop_invariant(i == 1 ? CM_from == S_cid[M_state[nmotion]] : S_seg[M_state[nmotion]] == CM_token)
+__CPROVER_loop_invariant((i <= 1 && MS_size >= 2) ==> (MS_states[1] >= 1 && MS_states[1] < MAXS && S_alive[MS_states[1]] && S_seg[MS_states[1]] == CM_token && !S_owned_by_tree[MS_states[1]] && MS_states[1] != rstate && MS_states[1] != xstate))
+__CPROVER_loop_invariant((i <= 2 && MS_size >= 3) ==> (MS_states[2] >= 1 && MS_states[2] < MAXS && S_alive[MS_states[2]] && S_seg[MS_states[2]] == CM_token && !S_owned_by_tree[MS_states[2]] && MS_states[2] != rstate && MS_states[2] != xstate && MS_states[2] != MS_states[1]))
+__CPROVER_loop_invariant(%(APPROX)s)
+__CPROVER_decreases(4 - i)
+""" % dict(ARR=ARR, QUIET=QUIET, SCRATCH=SCRATCH, APPROX=APPROX),
+        4: """
+__CPROVER_assigns(solution, mpath_size, __CPROVER_object_whole(MPATH))
+__CPROVER_loop_invariant(solution < MAXM && (solution == 0 || in_tree[solution]) && mpath_size < MAXM && (mpath_size == 0 ? solution == lastGoalMotion_ : (MPATH[0] == lastGoalMotion_ && MPATH[mpath_size - 1] >= 1 && MPATH[mpath_size - 1] < MAXM && solution == M_parent[MPATH[mpath_size - 1]] && in_tree[MPATH[mpath_size - 1]])))
+__CPROVER_loop_invariant((GJ < mpath_size) ==> (MPATH[GJ] >= 1 && MPATH[GJ] < MAXM && in_tree[MPATH[GJ]] && ((GJ + 1 < mpath_size) ==> (MPATH[GJ + 1] == M_parent[MPATH[GJ]]))))
+__CPROVER_loop_invariant(mpath_size + solution <= MAXM - 1)
+__CPROVER_decreases(solution)
+""",
+        5: """
+__CPROVER_assigns(i, path_len, path_first_m, path_last_m, PA, PB)
+__CPROVER_loop_invariant(-1 <= i && i < (int)mpath_size && mpath_size < MAXM && path_len + (size_t)(i + 1) == mpath_size)
+__CPROVER_loop_invariant(path_len >= 1 ==> (path_first_m == MPATH[mpath_size - 1] && path_last_m == MPATH[i + 1]))
+__CPROVER_loop_invariant(((int)GJ + 1 > i && GJ + 1 < mpath_size) ==> PA == MPATH[GJ + 1])
+__CPROVER_loop_invariant(((int)GJ > i && GJ < mpath_size) ==> PB == MPATH[GJ])
+__CPROVER_decreases(i + 1)
+"""})],
+    canaries=[dict(name="edge_without_motion_check", where="body:solve", rx=r"if \(checkMotionS\(M_state\[nmotion\], dstate\)\)", repl="if (checkMotionS(M_state[nmotion], dstate) || 1)"),
+              dict(name="approx_flag_dropped", where="body:solve", rx=r"approximate = true;", repl=";", thorough_only=True),
+              dict(name="xstate_leaked", where="body:solve", rx=r"freeState\(xstate\);", repl=";", thorough_only=True)]))
+
 ASSUMPTIONS = ["start states are addressed by index; bounds/validity of the start state at the ghost index are arbitrary fixed values", "exceptions (missing problem definition) are outside the modelled paths"]
 TRUSTED = ["extraction rewrite tables of units/C01.py, units/C17.py", "stubs in units/C01/inputs.c, units/C17/pathgeom.c", "CBMC 6.11 DFCC + minisat"]
 NOT_COVERED = ["THE SOLVE LOOPS OF THE ~45 GEOMETRIC AND MULTILEVEL PLANNERS: that every tree/roadmap edge is admitted only after checkMotion, that the reported path starts at a start state and ends in the goal region, status/flag consistency per planner, non-solution statuses adding no path (planner bodies are not under contract)",
